@@ -16,7 +16,9 @@
     - [collected] whether the Collectables return a stored object (owner index;
                   the queue CRD is returned regardless of owner),
     - [unmanaged] isUnmanaged (the queues CRD),
-    - the desired-state function (operands' DesiredState; it may read the store).
+    - the desired-state function (operands' DesiredState; it may read the store;
+      [desired_of]: one renderer per key that sees the object currently stored
+      under that key, as common.ObjectForKAIConfig does).
     The API store is an association list with unique keys
     (key = GVK/namespace/name).  Go's map iteration order is taken to be the
     list order; observables are compared as sorted lists.
@@ -114,4 +116,22 @@ Section Operator.
 
   Definition deploy (desired : store -> list (positive * obj)) (s : store) : list call * store :=
     deploy_with (desired s) s.
+
+  (** Operands render each object from the configuration and, like
+      common.ObjectForKAIConfig, on top of the object currently stored under
+      the same key ([None] when there is none): one renderer per key. *)
+  Definition renderer := option obj -> obj.
+
+  Definition desired_of (rs : list (positive * renderer)) (s : store) : list (positive * obj) :=
+    map (fun kr => (fst kr, snd kr (lookup (fst kr) s))) rs.
+
+  (** what Deploy compares / writes for key [k] when the stored object is [b] *)
+  Definition render_at (k : positive) (r : renderer) (b : option obj) : obj :=
+    match b with
+    | Some c => if collected k c then inherit c (r b) else r b
+    | None => r b
+    end.
+
+  Definition deploy_rendered (rs : list (positive * renderer)) (s : store) : list call * store :=
+    deploy (desired_of rs) s.
 End Operator.
